@@ -676,6 +676,32 @@ func c09r9(c *Ctx) {
 	fn := p.Func(pkgPkiUtil, "", "BuildSubjectAltNameExtension")
 	val := p.Field(pkgPkiUtil, "Identity", "Value")
 	n := 0
+	// the classification may live in a helper that is handed the element: its parameter then stands for the element
+	type scope struct {
+		f    *ssa.Function
+		elem map[ssa.Value]bool
+	}
+	scopes := []scope{{fn, nil}}
+	for _, h := range helperCalls(fn) {
+		el := map[ssa.Value]bool{}
+		for k, a := range h.site.Common().Args {
+			isElem := false
+			if u, ok := a.(*ssa.UnOp); ok && u.Op == token.MUL {
+				_, isElem = u.X.(*ssa.IndexAddr)
+			}
+			if _, ok := a.(*ssa.Index); ok {
+				isElem = true
+			}
+			if isElem && k < len(h.callee.Params) {
+				el[h.callee.Params[k]] = true
+			}
+		}
+		if len(el) > 0 {
+			scopes = append(scopes, scope{h.callee, el})
+		}
+	}
+	for _, sc := range scopes {
+	fn := sc.f
 	for _, st := range storesTo(fn, val) {
 		cv, ok := st.Val.(*ssa.Convert)
 		if !ok {
@@ -690,6 +716,9 @@ func c09r9(c *Ctx) {
 		ok2 := len(leaves) > 0
 		what := ""
 		for _, l := range leaves {
+			if sc.elem[l] {
+				continue // the helper's parameter that stands for the element
+			}
 			// an element of a slice: *(&slice[i]) or a range element
 			u, isLoad := l.(*ssa.UnOp)
 			if isLoad && u.Op == token.MUL {
@@ -713,6 +742,7 @@ func c09r9(c *Ctx) {
 		}
 		det += ": the certificate then carries an identity that differs from the one authentication established (a SPIFFE ID's path is case-sensitive; trimming or replacing characters likewise yields another workload's identity)"
 		c.Check("the encoded SAN is the authenticated identity string itself", st.Pos(), ok2, det)
+	}
 	}
 	c.Check("BuildSubjectAltNameExtension encodes string identities", fn.Pos(), n >= 2, "fewer string-to-bytes conversions into Identity.Value than confirmed by hand (URI and DNS forms)")
 	c.Floor(3)
